@@ -530,16 +530,20 @@ class ConcCheck(SeqCheck):
                                   f'## model-level failing execution (evaluated by coqc on this run): {term} = true\n## {story}\n## observed profile (gen/Profile.v): {prof}\n'
                                   + ('## first diverging event trace:\n' + divs[0].replay_text() if divs else ''))
                     return
+        mine = [d for d in divs if self.pred(d)]
+        script = None
         if self.script_bad and ctx.prop in ('C02', 'C03', 'C10'):
             what, text, path = min(self.script_bad, key=lambda b: len(b[1]))
             short = {'C02': 'publishes before the data is in place' in what or 'consumed' in what or 'item' in what,
                      'C03': 'publishes before the data is in place' in what,
-                     'C10': 'expected' in what and 'got' in what}[ctx.prop]
+                     'C10': 'expected' in what}[ctx.prop]
+            script = (what, text, short)
+        if script and (script[2] or not mine):
+            what, text, short = script
             ctx.violation(f'an execution of the proved release/acquire machine (interleaving + stale reads) does not replay on the real crate: {what} '
                           f'({len(self.script_bad)} cases)',
                           '## S-script case (replay: .build/cargo/debug/concrun <file with this case>)\n' + text, no_input=not short)
             return
-        mine = [d for d in divs if self.pred(d)]
         if mine:
             d = self.minimise(ctx, min(mine, key=lambda d: len(d.prefix())))
             ctx.violation(f'at `{d.op()}` the real crate performs other atomic accesses / publishes at another point than the model the theorems are about: expected `{field(d.expected, "at")}`, got `{field(d.actual, "at")}` (result `{d.res(d.actual)}`)',
